@@ -11,3 +11,14 @@ package driver
 //@   modifies * -M:S_db_KeyCol -M:S_sqlittle_columnIndex hdr_valid hdr_ps hdr_cookie jr_pos peer_state lk_shared lk_pending other_shared
 //@   requires c != nil
 //@   ensures [own-handle] err == nil ==> hasType(r0, "*driver.Statement") && fresh(deref(r0, "*driver.Statement").dbh)
+
+// expandSelectColumns: a successful expansion has asked the handle for the table's columns in this
+// very call (DB.Columns runs its own read transaction): a prepared statement never answers from a
+// column list remembered from an earlier execution (C08).
+//@ func (*driver.Statement).expandSelectColumns
+//@   props C08
+//@   modifies * -M:S_sqlittle_columnIndex lk_shared lk_pending peer_state cc_now hdr_valid hdr_ps hdr_cookie jr_pos columns_calls
+//@   requires st != nil && st.dbh != nil && !lk_shared && !lk_pending
+//@   ensures-before-exit [current-columns] r1 == nil ==> columns_calls == old(columns_calls) + 1
+//@   ghost-exit columns_calls = old(columns_calls)
+//@   ensures [released] !lk_shared && !lk_pending
